@@ -238,7 +238,7 @@ def c11(ctx):
     RH.rule_grid_index_of(ctx, prog)
     roots = [b for b in all_roots(prog) if b.key.startswith("histogram::") or "histogram::" in b.key]
     na = RL.rule_r8(ctx, prog, roots)
-    ctx.floor("R8", na, 2, "axis arguments in the histogram module")
+    ctx.floor("R8", na, 1, "axis arguments in the histogram module")
     RL.rule_r9(ctx, prog, roots)
     RH.rule_lookup_delegation(ctx, prog)
     return dict(
